@@ -137,8 +137,11 @@ def to_obj(a, ctx=None):
         def conv(z):
             if z.imag == 0:
                 return Poly.const(z.real)
-            if ctx is None or ctx.field is None:
-                raise Unsupported('complex constant outside an FFT field')
+            if ctx is None:
+                raise Unsupported('complex constant outside a context')
+            if ctx.field is None:
+                from .cyc import Field
+                ctx.field = Field.get(4)     # Q(i) is enough for a non-FFT program that meets a complex constant
             return complex_to_cyc(ctx.field, z)
     else:
         conv = Poly.const
@@ -580,6 +583,18 @@ def elementwise(name, eqn, ins, ctx):
         return [_map(lambda a: _round_atom(a, 'half_even', ctx), o[0])]
     if name in ('floor', 'ceil'):
         return [_map(lambda a: _round_atom(a, name, ctx), o[0])]
+    if name == 'exp' and any(isinstance(v, Cyc) for v in o[0].reshape(-1)):
+        def cexp(v):
+            if not isinstance(v, Cyc):
+                return _uf('exp', (v,), ctx)
+            re, im = _real_part(v), _imag_part(v)
+            if isinstance(re, Cyc) or isinstance(im, Cyc):
+                raise Unsupported('exp of a field element that is not of the form x + i y')
+            if not (isinstance(re, Poly) and re.is_zero()):
+                raise Unsupported('exp of a complex number with a non-zero real part')
+            c, s_ = trig_of(im, ctx)
+            return Cyc.of(ctx.field, c) + ctx.field.I * s_
+        return [_map(cexp, o[0])]
     if name in ('pow', 'exp', 'log', 'sqrt', 'rsqrt', 'tanh', 'atan2', 'acos', 'asin', 'exp2',
                 'log1p', 'expm1', 'logistic', 'erf', 'tan', 'atan', 'cbrt'):
         return [_map(lambda *a: _uf(name, tuple(a), ctx), *o)]
